@@ -4,7 +4,7 @@ from __future__ import annotations
 
 import ast
 
-from ..core import AnalysisError, Check, Scope, dotted, norm, strip_docstring, walk_no_nested
+from ..core import AnalysisError, Check, Scope, dotted, nary_index_problems, norm, strip_docstring, walk_no_nested
 from ..dispatch import applied_args, operator_table, classify_body, if_chain, isinstance_kinds, match_dispatch, sequential_chain
 from ..variants import Variant
 
@@ -34,6 +34,16 @@ REFERENCE_FNS = {
     "np.tan": {"tan"}, "np.tanh": {"tanh"}, "np.trunc": {"trunc"},
     "np.positive": set(),  # +x; Abs is wrong for negative arguments
     "np.invert": set(),  # bitwise not; sympy.invert is the modular inverse
+}
+# Entries whose sympy counterpart equals the Python function on numbers only (S12): applied to symbols they mean something else.
+NUMERIC_ONLY = {
+    "math.cbrt": "x**(1/3) is the principal complex root: cbrt(-8.0) is -2.0, the expression evaluates to 1+1.73j",
+    "np.cbrt": "x**(1/3) is the principal complex root: cbrt(-8.0) is -2.0, the expression evaluates to 1+1.73j",
+    "math.atan2": "atan2(0, 0) is 0.0 in Python and nan in sympy", "np.atan2": "atan2(0, 0) is 0.0 in numpy and nan in sympy",
+    "np.arctan2": "arctan2(0, 0) is 0.0 in numpy and nan in sympy",
+    "math.gcd": "gcd of two symbols is the polynomial gcd, 1", "np.gcd": "gcd of two symbols is the polynomial gcd, 1",
+    "math.lcm": "lcm of two symbols is the polynomial lcm, x*y", "np.lcm": "lcm of two symbols is the polynomial lcm, x*y",
+    "math.trunc": "sympy.trunc is polynomial truncation", "np.trunc": "sympy.trunc is polynomial truncation",
 }
 REFERENCE_CONSTANTS = {
     "math.e": "sympy.E", "math.pi": "sympy.pi", "math.nan": "sympy.nan", "math.tau": "sympy.pi * 2", "math.inf": "sympy.oo",
@@ -187,8 +197,11 @@ class C06(Check):
         "S11": "operator semantics: every handled Python operator is translated by the same operator applied to the translated operands "
                "(+ - * / ** % // ; unary + -; comparison ops), and `a if c else b` becomes Piecewise((a, c), (b, True))",
         "S9": "tuple assignment evaluates all right-hand sides before binding any target",
+        "S12": "numbers only: the value of a KNOWN_FNS hit is returned through sympy.Float(..), which refuses anything that is not a number - or else "
+               "the table holds no entry whose sympy counterpart equals the Python function on numbers only (cbrt, atan2, gcd, lcm, trunc)",
+        "S13": "augmented assignment, where handled, is `target = target <op> value` with the OLD value of the target as the LEFT operand",
     }
-    floors = {"S1": 6, "S2": 3, "S3": 2, "S4": 1, "S5": 2, "S6": 1, "S7": 60, "S8": 8, "S9": 1, "S10": 3, "S11": 12}
+    floors = {"S1": 6, "S2": 3, "S3": 2, "S4": 1, "S5": 2, "S6": 1, "S7": 60, "S8": 8, "S9": 1, "S10": 3, "S11": 12, "S12": 1, "S13": 1}
     decided = [
         "constructs outside the supported subset make the translation fail visibly instead of being skipped",
         "conditionals: branches cannot see each other's assignments; code after an if/else is applied to every branch",
@@ -230,6 +243,8 @@ class C06(Check):
         self.s6(entry)
         self.s6_module(mod)
         self.s7(mod)
+        self.s12(mod)
+        self.s13(mod, wname, wfn)
         self.s8(mod, entry)
         self.s10(mod)
         self.s11(mod)
@@ -363,6 +378,20 @@ class C06(Check):
         else:
             self.violated("S2", MOD, wname, "tuple-targets", wfn, "tuple assignment silently skips targets that are not names / values that are not tuples",
                           witness="def f(x, y): x, y = swap(x, y); return x  uses the stale argument symbol")
+        # generic: no list-valued node field is read through a constant index without a length test (covers handlers added later)
+        n_reads = 0
+        for fname, f in mod.functions.items():
+            if "." in fname:
+                continue
+            bad, good = nary_index_problems(f, mod)
+            n_reads += len(bad) + len(good)
+            for n, fld in {f_: (n_, f_) for n_, f_ in reversed(bad)}.values():
+                self.violated("S2", MOD, fname, f"indexed-field {fld}", n, f"`{norm(n)}` reads `{fld}` through a constant index and nothing in {fname} tests its length: "
+                              "further elements are dropped without the translation failing", witness="`a and b and c` / `x = y = e` / f(a, b, c): only the indexed elements reach the expression")
+            for fld in sorted({fld for _, fld in good}):
+                n0 = [n for n, f_ in good if f_ == fld][0]
+                self.holds("S2", MOD, fname, f"indexed-field {fld}", n0, "constant-index reads are preceded by a length test that refuses other lengths")
+        self.analysed["constant_index_reads_of_list_fields"] = n_reads
         # S9 evaluate-then-bind
         loops = [n for n in walk_no_nested(wfn) if isinstance(n, ast.For) and "target_elements" in norm(n.iter)]
         ok = False
@@ -493,6 +522,109 @@ class C06(Check):
                     self.violated("S7", MOD, "KNOWN_CONSTANTS", f"KNOWN_CONSTANTS[{key}]", k, f"{key} is mapped to {val} instead of {REFERENCE_CONSTANTS[key]}")
             else:
                 self.info("S7", MOD, "KNOWN_CONSTANTS", f"KNOWN_CONSTANTS[{key}]", k, f"unvetted -> {val}")
+
+    # ---- S12
+    def s12(self, mod) -> None:
+        from ..interp import Sym, SymInterp
+
+        users = [(n, f) for n, f in mod.functions.items() if "." not in n and any(isinstance(x, ast.Name) and x.id == "KNOWN_FNS" for x in walk_no_nested(f))]
+        if not users:
+            raise AnalysisError("no function reads KNOWN_FNS")
+        tbl = mod.const("KNOWN_FNS")
+        present = {norm(k) for k in tbl.keys} if isinstance(tbl, ast.Dict) else set()
+        for fname, f in users:
+            raw = []
+            n_ret = 0
+            for st, val in SymInterp().run_function(f, Sym()).returns:
+                txt = next((e[1] for e in reversed(st.events) if e[0] == "return"), None)
+                if txt is None or "KNOWN_FNS" not in txt:
+                    continue
+                try:
+                    tree = ast.parse(txt, mode="eval").body
+                except SyntaxError:
+                    continue
+                # applications of a table value: Call whose func mentions KNOWN_FNS
+                apps = [c for c in ast.walk(tree) if isinstance(c, ast.Call) and any(isinstance(x, ast.Name) and x.id == "KNOWN_FNS" for x in ast.walk(c.func))]
+                if not apps:
+                    continue
+                n_ret += 1
+                wrapped = set()
+                for w in ast.walk(tree):
+                    if isinstance(w, ast.Call) and norm(w.func) in ("sympy.Float", "Float", "float", "sympy.Number", "sympy.sympify(float"):
+                        wrapped.update(id(x) for x in ast.walk(w))
+                if any(id(a) not in wrapped for a in apps):
+                    raw.append(txt)
+            if not n_ret:
+                continue
+            cons = "table-hit-value"
+            if not raw:
+                self.holds("S12", MOD, fname, cons, f, "every table hit is returned as sympy.Float(fn(*args)): symbolic results are refused")
+                continue
+            bad = sorted(k for k in present if k in NUMERIC_ONLY)
+            if bad:
+                self.violated("S12", MOD, fname, cons, f, f"a table hit can be returned without passing sympy.Float (`{raw[0][:60]}..`), so calls on symbols stay symbolic, "
+                              f"but {bad} are equal to their Python functions on numbers only ({NUMERIC_ONLY[bad[0]]})",
+                              witness="def v(x): return math.cbrt(x)  translates to x**(1/3); at x = -8 Python gives -2.0, the expression 1+1.73j")
+            else:
+                self.holds("S12", MOD, fname, cons, f, "table hits may stay symbolic and no numbers-only entry is in the table")
+
+    # ---- S13
+    def s13(self, mod, wname, wfn) -> None:
+        """If the statement walker handles ast.AugAssign, the binary operation it builds has the old target value on the left."""
+        from ..core import expand_locals, single_defs
+
+        branch = None
+        for n in walk_no_nested(wfn):
+            if isinstance(n, ast.If) and "AugAssign" in ((isinstance_kinds(n.test) or (None, ()))[1]):
+                branch = n.body
+                break
+            if isinstance(n, ast.match_case) and "AugAssign" in norm(n.pattern):
+                branch = n.body
+                break
+        if branch is None:
+            self.holds("S13", MOD, wname, "augmented-assignment", wfn, "not handled: refused by the statement default (S1)")
+            return
+        wrap = ast.Module(body=branch, type_ignores=[])
+        defs = {}
+        for x in ast.walk(wrap):
+            if isinstance(x, ast.NamedExpr):
+                defs[x.target.id] = x.value
+            elif isinstance(x, ast.Assign) and len(x.targets) == 1 and isinstance(x.targets[0], ast.Name):
+                defs.setdefault(x.targets[0].id, x.value)
+
+        def role(e):
+            t = norm(expand_locals(e, defs, depth=4))
+            has_t, has_v = ".target" in t, ".value" in t
+            return "both" if has_t and has_v else "target" if has_t else "value" if has_v else None
+
+        verdicts = []
+        for c in ast.walk(wrap):
+            pairs = None
+            if isinstance(c, ast.Call):
+                named = {k.arg: k.value for k in c.keywords if k.arg}
+                if "left" in named and "right" in named:
+                    pairs = (named["left"], named["right"])
+                elif "left" in named and len(c.args) >= 1:
+                    pairs = None
+                else:
+                    pos = [a for a in c.args if role(a) in ("target", "value")]
+                    if len(pos) == 2 and {role(pos[0]), role(pos[1])} == {"target", "value"}:
+                        pairs = (pos[0], pos[1])
+            elif isinstance(c, ast.BinOp):
+                pairs = (c.left, c.right)
+            if pairs and {role(pairs[0]), role(pairs[1])} == {"target", "value"}:
+                verdicts.append((c, role(pairs[0]) == "target"))
+        if not verdicts:
+            self.undecided_ob("S13", MOD, wname, "augmented-assignment", branch[0], "AugAssign is handled but the operation combining target and value was not recognised")
+            return
+        c, ok = verdicts[0]
+        if all(v for _, v in verdicts):
+            self.holds("S13", MOD, wname, "augmented-assignment", c, f"`{norm(c)[:70]}`: old target value on the left, value on the right")
+        else:
+            c = [x for x, v in verdicts if not v][0]
+            self.violated("S13", MOD, wname, "augmented-assignment", c, f"`{norm(c)[:90]}` puts the value on the left and the old target on the right: "
+                          "`x -= y` is translated as `x = y - x` (likewise /=, **=, //=, %=)",
+                          witness="def v(s, total): total -= s; return total   translates to s - total")
 
     # ---- S8
     def s8(self, mod, entry) -> None:
